@@ -488,6 +488,8 @@ WITNESSES = [
             rule="C16.R4", construct="pts_importer"),
     Witness("C16.W11", "menpo/io/output/base.py", "_export", "if isinstance(fp, str):\n        fp = Path(fp)", "if False:\n        fp = Path(fp)",
             rule="C16.R1", construct="_export"),
+    Witness("C16.W12", "menpo/io/output/base.py", "export_image", "_export(image, fp, image_types, extension, overwrite)", "_export(image, fp, image_types, None, overwrite)",
+            rule="C16.G1", construct="export_image", note="generic dropped-option rule"),
     Witness("C16.T1", "menpo/io/output/base.py", "_export", "if isinstance(fp, str):\n        fp = Path(fp)",
             "if isinstance(fp, str):\n        fp = Path(fp)\n    n_kwargs = len(exporter_kwargs)", kind="T"),
 ]
